@@ -3,3 +3,5 @@ pub mod engine;
 pub mod model;
 pub mod props;
 pub mod util;
+#[cfg(feature = "sched")]
+pub mod sched;
